@@ -139,4 +139,13 @@ example : (match PST.setup 2 2 ([2, 7] : List K) 3 5 11 with
     | .ok pp => PST.trim pp 3 == .error .trimTooLarge
     | .error _ => false) = true := by decide
 
+/-- `pst13_setup_trim_consistent`: under the keys of that `setup` trimmed to degree 2,
+`4 + 6x₁ + 9x₀x₁ + 2x₀²` commits to `3·p(2, 7) = 3·(4 + 42 + 126 + 8)` -/
+example : (match PST.setup 2 2 ([2, 7] : List K) 3 5 11 with
+    | .ok pp => (match PST.trim pp 2 with
+      | .ok (ck, _) => PST.commit ck [(4, []), (6, [(1, 1)]), (9, [(0, 1), (1, 1)]), (2, [(0, 2)])]
+          none false [] == .ok (3 * (4 + 42 + 126 + 8), [], [])
+      | .error _ => false)
+    | .error _ => false) = true := by decide
+
 end PCV.C09
